@@ -81,17 +81,21 @@ func (s *verifC42Items) step(line string) (res string) {
 			s.ids[b] = id
 		}
 		s.slots[ws[3]] = b
-		dirty := 0
-		for _, x := range b.B {
+		dirty, hdirty := 0, 0
+		for i, x := range b.B[:cap(b.B)] {
 			if verifC42ItemDirty(x) {
-				dirty++
+				if i < len(b.B) {
+					dirty++
+				} else {
+					hdirty++
+				}
 			}
 		}
 		nw := 0
 		if !known {
 			nw = 1
 		}
-		return fmt.Sprintf("buf=%d new=%d len=%d cap=%d dirty=%d", id, nw, len(b.B), cap(b.B), dirty)
+		return fmt.Sprintf("buf=%d new=%d len=%d cap=%d dirty=%d hdirty=%d", id, nw, len(b.B), cap(b.B), dirty, hdirty)
 	case "put":
 		n, err := strconv.Atoi(ws[3])
 		if err != nil {
